@@ -50,7 +50,7 @@ def tu_list():
 
 def _digest(cfile, config):
     h = hashlib.sha256()
-    h.update(('v7|' + config + '|' + ' '.join(BASE_FLAGS + CONFIGS[config])).encode())
+    h.update(('v8|' + config + '|' + ' '.join(BASE_FLAGS + CONFIGS[config])).encode())
     for p in [os.path.join(REPO, 'src', cfile)] + sorted(glob.glob(os.path.join(REPO, 'src', '*.h'))):
         h.update(os.path.basename(p).encode())
         h.update(open(p, 'rb').read())
@@ -96,6 +96,12 @@ def _annotate(root, srcdir):
                 n['_endline'] = e[1]
         if l0:
             n['_locfile'], n['_locline'] = l0[0], l0[1]
+        af = n.get('array_filler')
+        if af is not None and 'inner' not in n:
+            # clang's JSON puts [filler, explicit initialisers...] under array_filler; normalise to inner
+            n['inner'] = af[1:]
+            n['_has_filler'] = True
+            del n['array_filler']
         inner = n.get('inner')
         if inner:
             for c in reversed(inner):
